@@ -194,19 +194,30 @@ pub fn run(prop: &str, tier: &str, seed: u64, outdir: &str) {
     let mut fails = oracle(prop, &ctx.ops, &ctx.ans);
     // sampling experiments / measurements on the real crate (no ops file: case 0)
     let mut exp = experiments::Exp { rng: SplitMix(seed ^ 0xE5E5), scale: ctx.tier_scale, stats: BTreeMap::new(), fails: vec![], evals: 0 };
-    match prop {
-        "C03" => experiments::exp_c03(&mut exp),
-        "C04" => experiments::exp_c04(&mut exp),
-        "C05" => experiments::exp_c05(&mut exp),
-        "C07" => experiments::exp_c07(&mut exp),
-        "C08" => {
-            experiments::exp_c08(&mut exp);
-            experiments::exp_c08_floor(&mut exp);
+    {
+        // the experiments call the real crate directly; a panic there is a finding, not a crash
+        let r = std::panic::catch_unwind(std::panic::AssertUnwindSafe(|| {
+            match prop {
+                "C03" => experiments::exp_c03(&mut exp),
+                "C04" => experiments::exp_c04(&mut exp),
+                "C05" => {
+                    experiments::exp_c05(&mut exp);
+                    experiments::exp_c05_long(&mut exp);
+                }
+                "C07" => experiments::exp_c07(&mut exp),
+                "C08" => {
+                    experiments::exp_c08(&mut exp);
+                    experiments::exp_c08_floor(&mut exp);
+                }
+                "C11" => experiments::exp_c11(&mut exp),
+                _ => {}
+            }
+            experiments::exp_glue(&mut exp, prop);
+        }));
+        if r.is_err() {
+            exp.fails.push(format!("the real crate panicked inside the {} experiment (re-run with PDS_HARNESS_PANICS=1 for the location)", prop));
         }
-        "C11" => experiments::exp_c11(&mut exp),
-        _ => {}
     }
-    experiments::exp_glue(&mut exp, prop);
     for (k, v) in &exp.stats {
         ctx.stats.insert(k.clone(), *v);
     }
